@@ -1,6 +1,7 @@
 package main
 
 import (
+	"context"
 	"fmt"
 
 	"github.com/jig/lisp/types"
@@ -38,6 +39,7 @@ func c14Universe() []types.MalType {
 		hm(K("a"), 1, K("b"), nil), hm(K("a"), 1, K("c"), nil), hm(K("a"), nil, K("b"), nil), hm(K("a"), nil, K("c"), nil), hm(K("k"), 1, K("a"), nil), hm(K("k"), 1, K("b"), 2),
 		hm(K("a"), L(1, 2)), hm(K("a"), V(1, 2)), hm(K("a"), hm(K("x"), nil)), hm(K("a"), hm(K("y"), nil)), hm(K("a"), L()), hm(K("a"), false),
 		set(), set("a"), set(K("a")), set("a", "b"), set("b", "a"), set(K("a"), "a"), set("a", "c"),
+		types.Set{Val: nil}, V(types.Set{Val: nil}), // the empty set as (set nil) builds it: no member map at all
 		L(hm(K("a"), nil)), L(hm(K("b"), nil)), V(set("a")), V(set("b")), L(1, L()), L(1, nil), hm(K("a"), V()),
 	}
 	return u
@@ -154,6 +156,32 @@ func runC14(tier string, seed uint64, rep *Report) {
 		ab, bc, ac := eq(a, b), eq(b, c), eq(a, c)
 		if ab.Val == true && bc.Val == true && ac.Val != true {
 			rep.Violate(-1, "= is not transitive", fmt.Sprintf("a=%s b=%s (a window of a's storage) c=%s (a copy of b)", h.Show(a), h.Show(b), h.Show(c)))
+		}
+	}
+	// empty collections however they were built (through the builtins): all empty sets are equal, all empty maps, ...
+	builders := map[string][]string{
+		"set":  {"(set nil)", "(hash-set)", "(set [])", "#{}", "(dissoc #{:a} :a)", "(with-meta (set nil) {:m 1})", "(set ())"},
+		"map":  {"{}", "(hash-map)", "(dissoc {:a 1} :a)", "(merge {} nil)", "(merge nil {})", "(with-meta {} {:m 1})"},
+		"list": {"()", "(list)", "(rest [1])", "(rest nil)", "(take 0 [1 2])", "(concat)", "(concat nil)", "(seq [])"},
+		"vec":  {"[]", "(vec nil)", "(vec ())", "(subvec [1] 1)", "(vector)"},
+	}
+	for kind, srcs := range builders {
+		var vals []types.MalType
+		var ok []string
+		for _, src := range srcs {
+			o := w.EvalText(context.Background(), src)
+			if o.Err != nil || o.Panic != nil || o.Val == nil {
+				continue // not every spelling yields a collection (e.g. (seq []) is nil): those are not compared
+			}
+			vals = append(vals, o.Val)
+			ok = append(ok, src)
+		}
+		for i := range vals {
+			for j := range vals {
+				one(vals[i], vals[j], "empty-"+kind+"-built-differently")
+				one(types.Vector{Val: []types.MalType{1, vals[i]}}, types.Vector{Val: []types.MalType{1, vals[j]}}, "empty-"+kind+"-nested")
+				_ = ok
+			}
 		}
 	}
 	// reflexivity over the universe and random values
